@@ -196,8 +196,25 @@ func invcdfReplay(in io.Reader, raw bool, args []string) (*Summary, error) {
 		}
 		// dispatch to the distribution's own methods
 		od := &ownDist{pwDist{bp: ic.BP, unit: float64(ic.Unit), lob: float64(ic.LoB), hib: float64(ic.HiB)}}
-		if g := stats.InvCDF(od)(0.25); g != -777+0.25 {
-			sum.viol("InvCDF-dispatch", c, "InvCDF did not use the distribution's own InvCDF: %v", g)
+		// "returns exactly that method": at every argument, including the end points, out-of-range levels and NaN, where the
+		// generic routine has rules of its own
+		for _, y := range []float64{0.25, 0, 1, 0.999, -0.5, 1.5, math.NaN(), math.Inf(1)} {
+			g, w := stats.InvCDF(od)(y), od.InvCDF(y)
+			if math.Float64bits(g) != math.Float64bits(w) && !(math.IsNaN(g) && math.IsNaN(w)) {
+				sum.viol("InvCDF-dispatch", c, "InvCDF(own)(%v) = %v but the distribution's own InvCDF gives %v", y, g, w)
+			}
+		}
+		for _, y := range []float64{0, 1, 0.5, -1, 2, math.NaN()} {
+			dd := stats.DeltaDist{T: float64(ic.LoB) + 0.5}
+			g, w := stats.InvCDF(dd)(y), dd.InvCDF(y)
+			if math.Float64bits(g) != math.Float64bits(w) && !(math.IsNaN(g) && math.IsNaN(w)) {
+				sum.viol("InvCDF-dispatch", c, "InvCDF(DeltaDist)(%v) = %v but DeltaDist.InvCDF gives %v", y, g, w)
+			}
+			nd := stats.NormalDist{Mu: float64(ic.HiB), Sigma: 0.5 + float64(ic.Unit)}
+			g, w = stats.InvCDF(nd)(y), nd.InvCDF(y)
+			if math.Float64bits(g) != math.Float64bits(w) && !(math.IsNaN(g) && math.IsNaN(w)) {
+				sum.viol("InvCDF-dispatch", c, "InvCDF(NormalDist)(%v) = %v but NormalDist.InvCDF gives %v", y, g, w)
+			}
 		}
 		if g := stats.Rand(od)(rand.New(rand.NewSource(1))); g != -888 {
 			sum.viol("Rand-dispatch", c, "Rand did not use the distribution's own Rand: %v", g)
